@@ -197,6 +197,8 @@ type Eng struct {
 	vshadow  []byte
 	retained []retainedSlice
 	Canaries int
+
+	sharedVals map[int][]byte
 }
 
 type retainedSlice struct {
@@ -215,11 +217,16 @@ func (e *Eng) args(rank, vid int) (key, val []byte) {
 	if rank > 0 {
 		key = e.U.Key(rank)
 	}
+	if !e.Hostile {
+		// an ordinary caller: the same value may be passed again later from the very same slice
+		// (it never modifies it, and expects the database not to either)
+		if vid != VNil {
+			val = e.shared(vid)
+		}
+		return key, val
+	}
 	if vid != VNil {
 		val = e.V.Bytes(vid)
-	}
-	if !e.Hostile {
-		return key, val
 	}
 	if e.kbuf == nil {
 		e.kbuf = make([]byte, 64)
@@ -231,6 +238,19 @@ func (e *Eng) args(rank, vid int) (key, val []byte) {
 	copy(e.kbuf, key)
 	copy(e.vbuf, val)
 	return e.kbuf[:len(key)], e.vbuf[:len(val)]
+}
+
+// shared returns the one slice this caller uses for value vid in every call.
+func (e *Eng) shared(vid int) []byte {
+	if e.sharedVals == nil {
+		e.sharedVals = map[int][]byte{}
+	}
+	b, ok := e.sharedVals[vid]
+	if !ok {
+		b = e.V.Bytes(vid)
+		e.sharedVals[vid] = b
+	}
+	return b
 }
 
 func (e *Eng) checkCallerBuffers() {
